@@ -113,7 +113,19 @@ class Pairs(Part):
         from artap.individual import Individual
         va, vb = case["a"], case["b"]
         pa, pb = project([va, vb])
-        a, b = Individual(list(va)), Individual(list(vb))
+        import random as pyrandom
+        rng = pyrandom.Random(hash((tuple(va), tuple(vb))) & 0xFFFFFFF)
+
+        def maybe_int(vec):
+            # integral coordinates may be given as Python ints or numpy scalars: 1, 1.0 and np.float64(1.0) are the same coordinate
+            r = rng.random()
+            if r < 0.2:
+                return [int(x) if float(x) == int(x) else x for x in vec]
+            if r < 0.35:
+                import numpy as np
+                return [np.float64(x) for x in vec]
+            return list(vec)
+        a, b = Individual(maybe_int(va)), Individual(maybe_int(vb))
         if case.get("relocated"):
             # the design was somewhere else first and has been hashed there (as offspring are before mutation replaces their vector)
             a = Individual([v + 1.0 for v in va])
